@@ -55,6 +55,16 @@ package rules
 //   M30  _getObject: existence read through GetPrefix(ConfigObjectKey(name))   → R-C18-5 _getObject|exact-key read on ConfigObjectKey
 //   M31  _getVersion: GetWithOp(ConfigVersion(), cluster.OpPrefix)             → R-C18-5 _getVersion|exact-key read on ConfigVersion
 //   (silent: P11 _deleteObject through PutAndDelete(map[string]*string{key: nil}); _listObjects' GetPrefix(ConfigObjectPrefix()))
+// Robustness pass (refactorings /verif/preserving/C18/r1..r4 all silent; c18_resolve.go, c18_delta.go):
+//   calls are resolved through locals bound once to a method value / function / straight-line closure, deferred
+//   same-package helpers are expanded, the mutex analyses run with engine inlining (helpers acquireEtcd/releaseLocal),
+//   a helper or closure the analysis cannot follow turns a failed obligation into Undecide; pkg/api: values written /
+//   returned are tracked relative to the version read OR to a parameter (_putVersion(v)), error wrappers
+//   (notFound, fail(code)) and bool kind helpers (sameKind/differentKind) are summarised; the version read that
+//   feeds an upgrade is a lock-protected site. Variants tried (silent): V1 Lock via method values, V2 Unlock via a
+//   closure local, V3 helper methods, V4 handler via method values, V5 error wrappers + differentKind, V6 writer
+//   split with string parameter and named result, V7p version handed down by the handler under the lock; the
+//   mutants V1m V2m V3m V3n V4m V4n V5m V5n V5o V6m V6n V7n on those shapes are all still reported.
 // Behaviour-preserving edits that stay silent (exit unchanged): P1 renamed locals + `nil != err || p` + `return err`;
 // P2 Lock without named result (`done` flag, explicit `return e`); P3 Unlock with the etcd error in a local and explicit
 // order; P4 `return m.m.Lock(ctx)` with recover-and-repanic closure; P5 double-checked RWMutex table; P6 sync.Map
@@ -68,8 +78,10 @@ import (
 	"go/token"
 	"go/types"
 	"os"
+	"sort"
 	"strings"
 
+	"golang.org/x/tools/go/packages"
 	"golang.org/x/tools/go/ssa"
 
 	"verif/internal/core"
@@ -293,6 +305,7 @@ func c18nilOf(f *flow.Func, st *flow.State, e ast.Expr) flow.Val {
 				return flow.False
 			}
 		}
+		return st.Get(f.NilKey(x)) // facts of an inlined `return h(..)`
 	}
 	return flow.Unknown
 }
@@ -385,74 +398,214 @@ func c18Mutex(c *core.Ctx) {
 	}
 }
 
+// c18mutexScan is the static part shared by the Lock and Unlock analyses: the etcd operations
+// of kind `want` in f and the same-package code it calls, and where their results go.
+type c18etcdSite struct {
+	g    *flow.Func
+	call *ast.CallExpr
+}
+
+func c18etcdSites(f *flow.Func, want string) []c18etcdSite {
+	var out []c18etcdSite
+	for _, g := range reach(f, 2) {
+		for _, call := range calls(g.Body, true) {
+			callee, _, _ := c18target(f.Pkg, call)
+			if c18etcdOp(callee) == want {
+				out = append(out, c18etcdSite{g, call})
+			}
+		}
+	}
+	return out
+}
+
+// c18holderKeys returns the nil-ness fact keys of the places the result of call (in g) ends up
+// in: the assigned variable, or — when it is returned — the call expression of g in its caller
+// and the variable that one is assigned to. dropped / other report an ignored or untraceable result.
+func c18holderKeys(f, g *flow.Func, call *ast.CallExpr, named *ast.Ident, depth int) (keys []string, dropped, other bool) {
+	holder, how := c18resultHolder(g.Body, call)
+	switch how {
+	case "assign":
+		keys = append(keys, g.NilKey(holder))
+	case "dropped":
+		dropped = true
+	case "return":
+		keys = append(keys, g.NilKey(call))
+		if g.Body == f.Body {
+			if named != nil {
+				keys = append(keys, f.NilKey(named))
+			}
+			return
+		}
+		gd, _ := g.Node.(*ast.FuncDecl)
+		if gd == nil || depth > 2 {
+			other = true
+			return
+		}
+		gobj := f.Info.Defs[gd.Name]
+		found := false
+		for _, h := range reach(f, 2) {
+			for _, c2 := range calls(h.Body, true) {
+				if callee, _, _ := c18target(f.Pkg, c2); callee != nil && callee == gobj {
+					found = true
+					k, d, o := c18holderKeys(f, h, c2, named, depth+1)
+					keys = append(keys, k...)
+					dropped = dropped || d
+					other = other || o
+				}
+			}
+		}
+		if !found {
+			other = true
+		}
+	default:
+		other = true
+	}
+	return
+}
+
+// c18helperRelevant reports whether a same-package function (transitively) operates on the etcd
+// mutex or on a sync lock (rooted at one of roots, if given).
+func c18helperRelevant(pkg *packages.Package, fd *ast.FuncDecl, roots map[types.Object]bool) bool {
+	for _, g := range reach(flow.NewFunc(pkg, fd), 2) {
+		for _, call := range calls(g.Body, true) {
+			callee, recv, _ := c18target(pkg, call)
+			if c18etcdOp(callee) != "" {
+				return true
+			}
+			if op, x := c18syncOpOf(c18eff{call: call, callee: callee, recv: recv}); op != "" {
+				if roots == nil {
+					return true
+				}
+				if _, rooted := c18rootedIn(g, x, roots); rooted {
+					return true
+				}
+			}
+		}
+	}
+	return false
+}
+
+// c18opaqueTracker notes helpers / closures the analysis could not follow; a failed obligation
+// is then reported as undecided, never as a violation.
+type c18opaqueTracker struct {
+	pkg     *packages.Package
+	opaque  []string
+	helpers map[*ast.FuncDecl]bool // direct same-package callees left to the engine's inlining
+	// relevant decides whether a helper the engine did not interpret matters to the rule
+	// (nil: it operates on a sync lock or the etcd mutex)
+	relevant func(fd *ast.FuncDecl) bool
+}
+
+func (o *c18opaqueTracker) note(f *flow.Func, call *ast.CallExpr, deferred bool, isOpaque bool) {
+	if isOpaque {
+		o.opaque = append(o.opaque, f.Pos(call.Pos())+" "+f.Render(call))
+	}
+	if deferred {
+		return
+	}
+	if fo, ok := f.Callee(call).(*types.Func); ok && fo.Pkg() == o.pkg.Types {
+		if fd := declOf(o.pkg, fo); fd != nil {
+			if o.helpers == nil {
+				o.helpers = map[*ast.FuncDecl]bool{}
+			}
+			o.helpers[fd] = true
+		}
+	}
+}
+
+// finish adds the relevant helpers that the engine did not interpret in place.
+func (o *c18opaqueTracker) finish(res *flow.Result) string {
+	inl := map[string]bool{}
+	for _, n := range res.Inlined {
+		inl[n] = true
+	}
+	for fd := range o.helpers {
+		rel := o.relevant
+		if rel == nil {
+			rel = func(fd *ast.FuncDecl) bool { return c18helperRelevant(o.pkg, fd, nil) }
+		}
+		if !inl[flow.NewFunc(o.pkg, fd).Name] && rel(fd) {
+			o.opaque = append(o.opaque, "helper "+fd.Name.Name+" is not interpreted in place")
+		}
+	}
+	sort.Strings(o.opaque)
+	return strings.Join(o.opaque, "; ")
+}
+
+// c18checkOrUndecide is c.Check unless the analysis met code it could not follow.
+func c18checkOrUndecide(c *core.Ctx, opaque string, ok bool, rule, construct, p, okDetail, badDetail string, w ...string) {
+	if !ok && opaque != "" {
+		c.Undecide(rule, construct, p, "not decidable: the analysis could not follow "+opaque+" (would otherwise report: "+badDetail+")")
+		return
+	}
+	c.Check(ok, rule, construct, p, okDetail, badDetail, w...)
+}
+
 func c18MutexLock(c *core.Ctx, t *types.Named, f *flow.Func) map[*types.Var]bool {
 	cons := fname(c18cl, t.Obj().Name(), "Lock")
-	recv := c18recvVar(f)
+	pkg := f.Pkg
+	roots := c18recvVarsOf(pkg, t)
 	named := c18namedResult(f)
 	fields := map[*types.Var]bool{}
 
 	// where does the result of the etcd acquisition go?
-	var acquires []*ast.CallExpr
-	for _, call := range calls(f.Body, false) {
-		if c18etcdOp(f.Callee(call)) == "acquire" {
-			acquires = append(acquires, call)
-		}
-	}
+	acquires := c18etcdSites(f, "acquire")
 	var resKeys []string
 	dropped := false
 	for _, a := range acquires {
-		holder, how := c18resultHolder(f.Body, a)
-		switch how {
-		case "assign":
-			resKeys = append(resKeys, f.NilKey(holder))
-		case "return":
-			if named != nil {
-				resKeys = append(resKeys, f.NilKey(named))
-			} else {
-				resKeys = append(resKeys, "")
-			}
-		case "dropped":
-			dropped = true
-		default:
-			c.Undecide("R-C18-1", cons+"|etcd acquisition result", pos(c, a), "cannot tell where the result of the etcd Lock goes")
+		keys, d, other := c18holderKeys(f, a.g, a.call, named, 0)
+		if other {
+			c.Undecide("R-C18-1", cons+"|etcd acquisition result", pos(c, a.call), "cannot tell where the result of the etcd Lock goes")
 			return fields
 		}
+		resKeys = append(resKeys, keys...)
+		dropped = dropped || d
 	}
 
-	res := analyze(c, f, flow.Config{
-		NoHavoc: true,
-		MayPanic: func(call *ast.CallExpr, callee types.Object) bool {
-			return c18etcdOp(callee) != ""
-		},
-		OnCall: func(st *flow.State, call *ast.CallExpr, callee types.Object, deferred bool) {
-			if op, x := c18syncOp(f, call, callee); op != "" {
-				fld, rooted := c18rootedAt(f, x, recv)
-				if !rooted {
-					return
-				}
-				switch op {
-				case "Lock":
-					st.Set(c18evLocal, flow.True)
-					if fld != nil {
-						fields[fld] = true
-					}
-				case "Unlock":
-					st.Set(c18evLocal, flow.False)
-				}
+	track := &c18opaqueTracker{pkg: pkg, relevant: func(fd *ast.FuncDecl) bool { return c18helperRelevant(pkg, fd, roots) }}
+	apply := func(st *flow.State, e c18eff) {
+		if op, x := c18syncOpOf(e); op != "" {
+			fld, rooted := c18rootedIn(f, x, roots)
+			if !rooted {
 				return
 			}
-			if c18etcdOp(callee) == "acquire" {
-				if !st.Is(c18evLocal, flow.True) {
-					st.Set(c18evBadOrder, flow.True)
+			switch op {
+			case "Lock":
+				st.Set(c18evLocal, flow.True)
+				if fld != nil {
+					fields[fld] = true
 				}
-				st.Set(c18evEtcd, flow.True)
+			case "Unlock":
+				st.Set(c18evLocal, flow.False)
 			}
+			return
+		}
+		if c18etcdOp(e.callee) == "acquire" {
+			if !st.Is(c18evLocal, flow.True) {
+				st.Set(c18evBadOrder, flow.True)
+			}
+			st.Set(c18evEtcd, flow.True)
+		}
+	}
+	res := analyze(c, f, flow.Config{
+		NoHavoc: true,
+		Inline:  inlineSamePkg(f),
+		MayPanic: func(call *ast.CallExpr, callee types.Object) bool {
+			target, _, _ := c18target(pkg, call)
+			return c18etcdOp(target) != ""
+		},
+		OnCall: func(st *flow.State, call *ast.CallExpr, callee types.Object, deferred bool) {
+			effs, opaque := c18resolve(pkg, call, deferred, 0)
+			for _, e := range effs {
+				apply(st, e)
+			}
+			track.note(f, call, deferred, opaque)
 		},
 		OnNode: func(st *flow.State, n ast.Node) {
 			// `return x` in a function with a named error result assigns the result before
 			// the deferred functions run
 			ret, ok := n.(*ast.ReturnStmt)
-			if !ok || named == nil || len(ret.Results) == 0 {
+			if !ok || named == nil || len(ret.Results) == 0 || c18declOrLitOf(f, ret) != f.Node {
 				return
 			}
 			st.Set(f.NilKey(named), c18nilOf(f, st, c18lastResult(ret)))
@@ -461,6 +614,7 @@ func c18MutexLock(c *core.Ctx, t *types.Named, f *flow.Func) map[*types.Var]bool
 	if res == nil {
 		return fields
 	}
+	opaque := track.finish(res)
 
 	type verdict struct {
 		n   int
@@ -482,8 +636,8 @@ func c18MutexLock(c *core.Ctx, t *types.Named, f *flow.Func) map[*types.Var]bool
 		switch {
 		case named != nil:
 			isNil = st.Get(f.NilKey(named))
-			if r := c18lastResult(ex.Return); r != nil && c18nilOf(f, st, r) == flow.True {
-				isNil = flow.True
+			if r := c18lastResult(ex.Return); r != nil && c18nilOf(f, st, r) != flow.Unknown {
+				isNil = c18nilOf(f, st, r)
 			}
 		default:
 			isNil = c18nilOf(f, st, c18lastResult(ex.Return))
@@ -537,19 +691,20 @@ func c18MutexLock(c *core.Ctx, t *types.Named, f *flow.Func) map[*types.Var]bool
 	c.Count("R-C18-1:etcd acquire calls in "+cons, len(acquires))
 	c.Count("R-C18-1:panic exits of "+cons, pan.n)
 	c.RequireCount("R-C18-1", "success exits of "+cons, succ.n, 1)
-	c.Check(succ.bad == nil, "R-C18-1", cons+"|nil return holds local lock and etcd lock", pos(c, f.Body),
+	p := pos(c, f.Body)
+	c18checkOrUndecide(c, opaque, succ.bad == nil, "R-C18-1", cons+"|nil return holds local lock and etcd lock", p,
 		sprintf("%d success exit state(s): local lock held, etcd acquisition returned nil", succ.n), succ.why, witness(succ.bad)...)
 	if len(acquires) > 0 {
-		c.Check(fail.bad == nil && fail.n > 0, "R-C18-1", cons+"|error return releases local lock", pos(c, f.Body),
+		c18checkOrUndecide(c, opaque, fail.bad == nil && fail.n > 0, "R-C18-1", cons+"|error return releases local lock", p,
 			sprintf("%d failure exit state(s): local lock not held", fail.n),
 			c18or(fail.why, "Lock has no exit reporting a failed etcd acquisition"), witness(fail.bad)...)
-		c.Check(pan.bad == nil, "R-C18-1", cons+"|panic exit releases local lock", pos(c, f.Body),
+		c18checkOrUndecide(c, opaque, pan.bad == nil, "R-C18-1", cons+"|panic exit releases local lock", p,
 			sprintf("%d panic exit state(s): local lock not held", pan.n), pan.why, witness(pan.bad)...)
 	}
 	// order at the call itself (covers paths that never return)
 	var badAt *flow.State
 	for _, a := range acquires {
-		for _, st := range res.At[a] {
+		for _, st := range res.At[a.call] {
 			if !st.Is(c18evLocal, flow.True) {
 				badAt = st
 			}
@@ -559,11 +714,28 @@ func c18MutexLock(c *core.Ctx, t *types.Named, f *flow.Func) map[*types.Var]bool
 		badAt = order.bad
 	}
 	if len(acquires) > 0 {
-		c.Check(badAt == nil, "R-C18-1", cons+"|etcd acquired under local lock", pos(c, f.Body),
+		c18checkOrUndecide(c, opaque, badAt == nil, "R-C18-1", cons+"|etcd acquired under local lock", p,
 			"every etcd acquisition is evaluated with the process-local lock held",
 			"the etcd session mutex is acquired before the process-local lock: a second goroutine of the same session passes the etcd Lock at once (already owner) and the key is deleted by the first Unlock while the second still holds the lock", witness(badAt)...)
 	}
 	return fields
+}
+
+// c18declOrLitOf returns the innermost function (declaration or literal) of f's package that
+// spans n.
+func c18declOrLitOf(f *flow.Func, n ast.Node) ast.Node {
+	fd := c18declAt(f.Pkg, n)
+	if fd == nil {
+		return nil
+	}
+	var inner ast.Node = fd
+	ast.Inspect(fd, func(x ast.Node) bool {
+		if l, ok := x.(*ast.FuncLit); ok && contains(l, n) {
+			inner = l
+		}
+		return true
+	})
+	return inner
 }
 
 func c18or(a, b string) string {
@@ -575,38 +747,44 @@ func c18or(a, b string) string {
 
 func c18MutexUnlock(c *core.Ctx, t *types.Named, f *flow.Func) map[*types.Var]bool {
 	cons := fname(c18cl, t.Obj().Name(), "Unlock")
-	recv := c18recvVar(f)
+	pkg := f.Pkg
+	roots := c18recvVarsOf(pkg, t)
 	fields := map[*types.Var]bool{}
-	var releases []*ast.CallExpr
-	for _, call := range calls(f.Body, false) {
-		if c18etcdOp(f.Callee(call)) == "release" {
-			releases = append(releases, call)
+	releases := c18etcdSites(f, "release")
+	var badOrder *flow.State
+	track := &c18opaqueTracker{pkg: pkg, relevant: func(fd *ast.FuncDecl) bool { return c18helperRelevant(pkg, fd, roots) }}
+	apply := func(st *flow.State, e c18eff) {
+		if op, x := c18syncOpOf(e); op == "Unlock" {
+			if fld, rooted := c18rootedIn(f, x, roots); rooted {
+				st.Set(c18evLocalRel, flow.True)
+				if fld != nil {
+					fields[fld] = true
+				}
+			}
+			return
+		}
+		if c18etcdOp(e.callee) == "release" {
+			if st.Is(c18evLocalRel, flow.True) && badOrder == nil {
+				badOrder = st
+			}
+			st.Set(c18evEtcd, flow.True)
 		}
 	}
-	var badOrder *flow.State
 	res := analyze(c, f, flow.Config{
 		NoHavoc: true,
+		Inline:  inlineSamePkg(f),
 		OnCall: func(st *flow.State, call *ast.CallExpr, callee types.Object, deferred bool) {
-			if op, x := c18syncOp(f, call, callee); op == "Unlock" {
-				if fld, rooted := c18rootedAt(f, x, recv); rooted {
-					st.Set(c18evLocalRel, flow.True)
-					if fld != nil {
-						fields[fld] = true
-					}
-				}
-				return
+			effs, opaque := c18resolve(pkg, call, deferred, 0)
+			for _, e := range effs {
+				apply(st, e)
 			}
-			if c18etcdOp(callee) == "release" {
-				if st.Is(c18evLocalRel, flow.True) && badOrder == nil {
-					badOrder = st
-				}
-				st.Set(c18evEtcd, flow.True)
-			}
+			track.note(f, call, deferred, opaque)
 		},
 	})
 	if res == nil {
 		return fields
 	}
+	opaque := track.finish(res)
 	n := 0
 	var badLocal, badEtcd *flow.State
 	for _, ex := range res.Exits {
@@ -622,14 +800,15 @@ func c18MutexUnlock(c *core.Ctx, t *types.Named, f *flow.Func) map[*types.Var]bo
 		}
 	}
 	c.RequireCount("R-C18-1", "return exits of "+cons, n, 1)
-	c.Check(badLocal == nil, "R-C18-1", cons+"|every return releases local lock", pos(c, f.Body),
+	p := pos(c, f.Body)
+	c18checkOrUndecide(c, opaque, badLocal == nil, "R-C18-1", cons+"|every return releases local lock", p,
 		sprintf("%d return exit state(s), process-local lock released on all (also when etcd reports an error)", n),
 		"Unlock can return without releasing the process-local lock (e.g. when the etcd release fails): every later Lock of this name on this member blocks forever", witness(badLocal)...)
-	c.Check(badEtcd == nil, "R-C18-1", cons+"|every return releases etcd lock", pos(c, f.Body),
+	c18checkOrUndecide(c, opaque, badEtcd == nil, "R-C18-1", cons+"|every return releases etcd lock", p,
 		"the etcd release is called on every return path",
 		"Unlock can return without calling the etcd release: the lock key stays in etcd and other members never acquire the mutex", witness(badEtcd)...)
 	if len(releases) > 0 {
-		c.Check(badOrder == nil, "R-C18-1", cons+"|etcd released under local lock", pos(c, f.Body),
+		c18checkOrUndecide(c, opaque, badOrder == nil, "R-C18-1", cons+"|etcd released under local lock", p,
 			"the etcd release is evaluated before the process-local lock is released",
 			"the process-local lock is released before the etcd key: the next local holder passes the etcd Lock as session owner and then loses the key to this Unlock while inside the critical section", witness(badOrder)...)
 	}
@@ -993,27 +1172,82 @@ func c18TableDiscipline(c *core.Ctx, f *flow.Func, cons string) {
 		return types.AssignableTo(m.Elem(), mx)
 	}
 	const (
-		evW      = "ev:c18:wlocked"
-		evR      = "ev:c18:rlocked"
-		evLooked = "ev:c18:looked"
+		evW      = "ev:c18:wlocked#" // + lock identity
+		evR      = "ev:c18:rlocked#"
+		evLooked = "ev:c18:looked#"
 	)
+	// lock identity: the mutex field (or the rendered expression for other locks)
+	lockID := func(g *flow.Func, x ast.Expr) string {
+		if x == nil {
+			return "?"
+		}
+		e := ast.Unparen(x)
+		if u, ok := e.(*ast.UnaryExpr); ok {
+			e = ast.Unparen(u.X)
+		}
+		if sel, ok := e.(*ast.SelectorExpr); ok {
+			if sl := f.Info.Selections[sel]; sl != nil {
+				if v, ok := sl.Obj().(*types.Var); ok && v.IsField() {
+					return v.Name() + "@" + g.Pos(v.Pos())
+				}
+			}
+		}
+		return g.Render(e)
+	}
+	heldWith := func(st *flow.State, prefix string) []string {
+		var ids []string
+		for _, kv := range st.Facts() {
+			if strings.HasPrefix(kv, prefix) && strings.HasSuffix(kv, "=T") {
+				ids = append(ids, kv[len(prefix):len(kv)-2])
+			}
+		}
+		return ids
+	}
+	touchesTable := func(n ast.Node) bool {
+		found := false
+		ast.Inspect(n, func(x ast.Node) bool {
+			if e, ok := x.(ast.Expr); ok && isTable(e) {
+				found = true
+			}
+			return !found
+		})
+		return found
+	}
 	var bad *flow.State
 	why := ""
 	storeSites, lookupSites := map[ast.Node]bool{}, map[ast.Node]bool{}
+	track := &c18opaqueTracker{pkg: f.Pkg, relevant: func(fd *ast.FuncDecl) bool {
+		for _, g := range reach(flow.NewFunc(f.Pkg, fd), 2) {
+			if touchesTable(g.Body) {
+				return true
+			}
+		}
+		return false
+	}}
 	res := analyze(c, f, flow.Config{
 		NoHavoc: true,
+		Inline:  inlineSamePkg(f),
 		OnCall: func(st *flow.State, call *ast.CallExpr, callee types.Object, deferred bool) {
-			switch op, _ := c18syncOp(f, call, callee); op {
-			case "Lock":
-				st.Set(evW, flow.True)
-				st.Set(evLooked, flow.False)
-			case "Unlock":
-				st.Set(evW, flow.False)
-				st.Set(evLooked, flow.False)
-			case "RLock":
-				st.Set(evR, flow.True)
-			case "RUnlock":
-				st.Set(evR, flow.False)
+			effs, opq := c18resolve(f.Pkg, call, deferred, 0)
+			track.note(f, call, deferred, opq)
+			for _, e := range effs {
+				op, x := c18syncOpOf(e)
+				if op == "" {
+					continue
+				}
+				id := lockID(f, x)
+				switch op {
+				case "Lock":
+					st.Set(evW+id, flow.True)
+					st.Set(evLooked+id, flow.False)
+				case "Unlock":
+					st.Set(evW+id, flow.False)
+					st.Set(evLooked+id, flow.False)
+				case "RLock":
+					st.Set(evR+id, flow.True)
+				case "RUnlock":
+					st.Set(evR+id, flow.False)
+				}
 			}
 		},
 		OnNode: func(st *flow.State, n ast.Node) {
@@ -1040,22 +1274,29 @@ func c18TableDiscipline(c *core.Ctx, f *flow.Func, cons string) {
 				if !ok || !isTable(e) {
 					return true
 				}
+				w := heldWith(st, evW)
 				if isLHS(e) {
 					storeSites[e] = true
+					looked := false
+					for _, id := range w {
+						if st.Is(evLooked+id, flow.True) {
+							looked = true
+						}
+					}
 					switch {
 					case bad != nil:
-					case !st.Is(evW, flow.True):
+					case len(w) == 0:
 						bad, why = st, "the mutex table is written without holding a lock: two concurrent callers for one name both insert and get different mutexes"
-					case !st.Is(evLooked, flow.True):
+					case !looked:
 						bad, why = st, "the mutex table is written without a lookup in the same critical section: a concurrent caller's entry for the name is overwritten and the two callers hold different mutexes"
 					}
 				} else {
 					lookupSites[e] = true
-					if !st.Is(evW, flow.True) && !st.Is(evR, flow.True) && bad == nil {
+					if len(w) == 0 && len(heldWith(st, evR)) == 0 && bad == nil {
 						bad, why = st, "the mutex table is read without holding a lock"
 					}
-					if st.Is(evW, flow.True) {
-						st.Set(evLooked, flow.True)
+					for _, id := range w {
+						st.Set(evLooked+id, flow.True)
 					}
 				}
 				return true
@@ -1066,7 +1307,7 @@ func c18TableDiscipline(c *core.Ctx, f *flow.Func, cons string) {
 	if res == nil || (stores == 0 && lookups == 0) {
 		return // sync.Map based table: LoadOrStore is atomic
 	}
-	c.Check(bad == nil, "R-C18-2", cons+"|lookup and insert in one critical section", pos(c, f.Body),
+	c18checkOrUndecide(c, track.finish(res), bad == nil, "R-C18-2", cons+"|lookup and insert in one critical section", pos(c, f.Body),
 		sprintf("%d lookup(s) and %d insert(s) of the mutex table evaluated under the table lock, inserts after a lookup in the same critical section", lookups, stores),
 		why, witness(bad)...)
 }
